@@ -51,6 +51,7 @@ def run_shard(shard, out_base):
         mon.tally("forced_alias_bbans", len(forced))
         bbans = list(forced.values()) + [gen.random_bban(spec, rng, s) for s in ("low", "high", "alt")]
         bbans += [gen.random_bban(spec, rng) for _ in range(sz["rand"])]
+        bbans += gen.token_bbans(spec, rng)
         for b in bbans:
             want = R.check_digits(cc, b)
             w = {"country": cc, "bban": b}
